@@ -140,6 +140,11 @@ def choices():
     inner = T('CHOICE', [], fields=alt[:2])
     nested = T('CHOICE', [], fields=[('c', inner, 'req'), ('n', T('NULL'), 'req')])
     out += [(nested, ('c', ('i', 9))), (nested, ('n', None)), (nested, ('c', ('s', b'')))]
+    # an untagged ANY as the catch-all alternative: the value is the whole element, header included
+    anyalt = T('CHOICE', [], fields=[('i', T('INTEGER'), 'req'), ('y', T('ANY'), 'req')])
+    out += [(anyalt, ('i', 5)), (anyalt, ('y', b'\x04\x02ab')), (anyalt, ('y', b'\x30\x03\x01\x01\xff'))]
+    holder = T('SEQUENCE', [], fields=[('c', anyalt, 'req'), ('z', T('INTEGER', [('I', CTX, 0)]), 'opt')])
+    out += [(holder, {'c': ('y', b'\x0c\x02hi'), 'z': 1}), (holder, {'c': ('i', 3)})]
     return out
 
 
